@@ -76,6 +76,21 @@ theorem exSmall_guard : Guard exSmall := by
   · show (AttrsDeep _ ∧ VarsDeep [_]) ∧ True
     exact ⟨⟨⟨trivial, trivial⟩, ⟨⟨by show 2 ≤ 2; decide, trivial⟩, trivial⟩⟩, trivial⟩
 
+/-- keep-around over a whole tree: a Grid with the plain attribute `x = ""` named like its member `x`, and a plain
+    global attribute named like the dataset -/
+def wKeep : Dataset := ⟨"d".toList, [("d".toList, .sc (.str "ab".toList))],
+  [Var.mk .grid "g".toList [("x".toList, .sc (.str []))] [Var.mk .base "arr".toList [] [], Var.mk .base "x".toList [] []]]⟩
+
+theorem wKeep_guard : Guard wKeep := by
+  refine ⟨⟨?_, by decide, by unfold NoDot; decide, ?_, by decide⟩, ⟨trivial, trivial⟩, ⟨⟨trivial, trivial⟩, trivial⟩⟩
+  · refine ⟨⟨by decide, ?_⟩, trivial⟩
+    intro m hm
+    simp only [List.mem_cons, List.not_mem_nil, or_false] at hm
+    rcases hm with rfl | rfl
+    · exact ⟨rfl, by intro e h; cases h⟩
+    · exact ⟨rfl, by intro e h; cases h⟩
+  · intro e h; cases h
+
 def exDs : Dataset :=
   ⟨"d".toList,
    [("title".toList, .sc (.str "t; {x}".toList)), ("NC_GLOBAL".toList, .dict [("n".toList, .sc (.num "3".toList false))])],
